@@ -23,6 +23,8 @@ def build(table="module"):
     S.load_module(bxs)
     import spec.netref_spec as nrs
     S.load_module(nrs)
+    import spec.vinegar_spec as vgs
+    S.load_module(vgs)
     import rpyc.core.channel as ch
     S.consts["C"] = tables.frame_consts_from_module(ch)
     import rpyc.core.stream as stream_mod
@@ -31,6 +33,12 @@ def build(table="module"):
     S.consts["errno"] = errno_mod if "errno_mod" in dir() else __import__("errno")
     import rpyc.core.protocol as protocol_mod, rpyc.core.consts as consts_mod
     S.consts["HANDLERS"] = protocol_mod.Connection._request_handlers()
+    import rpyc.version as version_mod
+    S.consts["VERSION_STRING"] = version_mod.version_string
+    S.consts["VERSION_MAJOR"] = str(version_mod.version[0])
+    import builtins as builtins_mod
+    S.consts["BUILTINS_NAME"] = builtins_mod.__name__
+    S.consts["BUILTINS_MODULE"] = builtins_mod
     S.consts["TRUE"], S.consts["FALSE"] = True, False
     for _k, _v in vars(consts_mod).items():
         if _k.isupper():
@@ -39,7 +47,7 @@ def build(table="module"):
     S.consts["T"] = T
     S.consts["PERM_INVARIANT"] = bs.PERM_INVARIANT
     st = store.Store()
-    for m in ("brine", "compat", "externals", "stream", "channel", "protocol_attr", "colls", "protocol_box", "protocol_core", "async_", "protocol_close", "lib", "netref", "protocol_handlers", "scenarios"):
+    for m in ("brine", "compat", "externals", "stream", "channel", "protocol_attr", "colls", "protocol_box", "protocol_core", "async_", "protocol_close", "lib", "netref", "protocol_handlers", "scenarios", "vinegar"):
         importlib.import_module("contracts." + m).register(st)
     lib = libmodels.Lib(S)
     ex = engine.Executor(st, REPO, S, lib)
@@ -59,6 +67,8 @@ if __name__ == "__main__":
             continue
         for b in c.behaviours:
             if c.behaviours[b].trusted:
+                continue
+            if os.environ.get("BEH") and b not in os.environ["BEH"].split(","):
                 continue
             try:
                 n = ex.verify(c, b)
